@@ -9,13 +9,13 @@
 EXTENDS GenDoc
 
 FaultKinds == <<"DupTable", "DupAlias", "AliasIsKey", "DupEnum", "DupGroup", "DupGroupItem", "DupRef",
-                "DupRefInline", "DupInlineTwice", "EmptyTable", "RefNoTable", "RefNoColumn", "IdxNoColumn", "GroupNoTable">>
+                "DupRefInline", "DupInlineTwice", "EmptyTable", "RefNoTableAtAll", "GroupNoTableAtAll", "RefNoTable", "RefNoColumn", "IdxNoColumn", "GroupNoTable">>
 
 RuleClass(k) ==
   CASE k \in {"DupTable", "DupAlias", "AliasIsKey", "DupEnum", "DupGroup", "DupRef", "DupRefInline", "DupInlineTwice"} -> DVE
     [] k = "DupGroupItem" -> "ValidationError"
     [] k = "EmptyTable" -> "SyntaxError"
-    [] k \in {"RefNoTable", "GroupNoTable"} -> "TableNotFoundError"
+    [] k \in {"RefNoTable", "GroupNoTable", "RefNoTableAtAll", "GroupNoTableAtAll"} -> "TableNotFoundError"
     [] k \in {"RefNoColumn", "IdxNoColumn"} -> "ColumnNotFoundError"
 
 \* letter case folded for the pool's column names (TLC strings are atomic: a table, not a function on characters)
@@ -104,6 +104,17 @@ Inject(sd, base, k) ==
              r == PickPos(sd, 927, base[pos].cols[ci].refs)
          IN [base EXCEPT ![pos].cols[ci].refs =
                Append(@, [type |-> r.type, addr |-> IF Coin(sd, 928, 60) THEN r.addr ELSE RespellCols(sd, 929, tabs, r.addr)])]
+    \* the document declares NO table at all (its tables, references and groups are taken out) and then names one
+    [] k = "RefNoTableAtAll" ->
+         LET rest == SelectSeq(base, LAMBDA x : x.d \notin {"table", "ref", "group"}) IN
+         InsertAt(rest, (H(sd, 937) % (Len(rest) + 1)) + 1,
+                  [d |-> "ref", name |-> "", left |-> [schema |-> "", table |-> "zz_a", cols |-> <<"id">>], type |-> Pick(sd, 938, RefKinds),
+                   right |-> [schema |-> IF Coin(sd, 939, 50) THEN "" ELSE "s1", table |-> "zz_b", cols |-> <<"id">>],
+                   onupdate |-> "", ondelete |-> "", comment |-> ""])
+    [] k = "GroupNoTableAtAll" ->
+         LET rest == SelectSeq(base, LAMBDA x : x.d \notin {"table", "ref", "group"}) IN
+         InsertAt(rest, (H(sd, 940) % (Len(rest) + 1)) + 1,
+                  [d |-> "group", name |-> "zz_g", items |-> <<[schema |-> "", table |-> "zz_missing"]>>, note |-> "", color |-> "", comment |-> ""])
     [] k = "EmptyTable" ->
          InsertSomewhere(sd, base, [NewTable("", "zz_new", "", <<>>) EXCEPT !.note = IF Coin(sd, 915, 50) THEN "only a note" ELSE ""])
     [] k = "RefNoTable" ->
